@@ -100,7 +100,13 @@ class Subprocess(object):
             raise OSError(errno.EPIPE, "Process' stdin channel is closed")
 
         dispatcher.input_buffer += chars
-        dispatcher.flush() # this must raise EPIPE if the pipe is closed
+        try:
+            dispatcher.flush() # this must raise EPIPE if the pipe is closed
+        except OSError as why:
+            if why.args[0] not in (errno.EAGAIN, errno.EWOULDBLOCK):
+                raise
+            # the pipe is full: the data stays in the input buffer and is
+            # written when the descriptor becomes writable again
 
     def get_execv_args(self):
         """Internal: turn a program name into a file name, using $PATH,
